@@ -38,6 +38,10 @@ import (
 type lsCase struct {
 	IndexExists bool   // the index directory exists (empty) before the first step
 	Form        string // "" = `zoekt-local-sync <flags>`, "sync" = `zoekt-local-sync sync <flags>`
+	// ShardLimit is the -shard_limit of every sync of the history (0 = 1 MiB,
+	// i.e. one shard per repository). With a small limit the "big" contents
+	// (ids >= lsSmallContents) span several shards.
+	ShardLimit int `json:",omitempty"`
 	Steps       []lsStep
 }
 
@@ -94,7 +98,20 @@ type lsCmd struct {
 }
 
 const lsMaxRev = 3
-const lsContents = 5
+const lsContents = 8      // content ids 0..7
+const lsSmallContents = 5 // ids below: two tiny files; ids from here: lsBigFiles files of ~700 bytes
+const lsBigFiles = 6
+
+func lsBig(content int) bool { return content >= lsSmallContents }
+
+// lsBigText is the deterministic text of one file of a big content.
+func lsBigText(content, file int) string {
+	var sb strings.Builder
+	for line := 0; sb.Len() < 700; line++ {
+		fmt.Fprintf(&sb, "content %d file %d line %d needle alpha%d beta%d gamma%d\n", content, file, line, content*7+line, file*11+line, line*line+content)
+	}
+	return sb.String()
+}
 
 // Root directories live at <base>/roots/<entry>. Two roots share the base
 // name "alpha" (root-level repositories collide), one ends in ".git" (can
@@ -153,7 +170,7 @@ func lsGitSuffixed(root int, p string) bool {
 	return strings.HasSuffix(p, ".git")
 }
 
-func lsGenMut(g kit.G, m *lsGenModel, def []int, later bool) lsMut {
+func lsGenMut(g kit.G, m *lsGenModel, def []int, later bool, bigPct int) lsMut {
 	pickRoot := func(label string) int {
 		if g.Bool(88, label+"-def") {
 			return kit.Pick(g, def, label)
@@ -164,7 +181,7 @@ func lsGenMut(g kit.G, m *lsGenModel, def []int, later bool) lsMut {
 	if len(m.repos) > 0 && later {
 		// after the first command: mostly changes to what is (probably) indexed
 		op = kit.Pick(g, []string{
-			"add", "add", "add",
+			"add", "add", "add", "twin",
 			"move", "move", "move", "move", "move", "move",
 			"update", "update", "update",
 			"del", "del",
@@ -173,7 +190,7 @@ func lsGenMut(g kit.G, m *lsGenModel, def []int, later bool) lsMut {
 		}, "op-later")
 	} else if len(m.repos) > 0 {
 		op = kit.Pick(g, []string{
-			"add", "add", "add", "add", "add", "add",
+			"add", "add", "add", "add", "add", "add", "twin", "twin",
 			"move", "move", "move", "move", "move",
 			"update", "update", "update",
 			"del", "del",
@@ -183,12 +200,40 @@ func lsGenMut(g kit.G, m *lsGenModel, def []int, later bool) lsMut {
 	} else if g.Bool(8, "shard-first") {
 		op = "shard"
 	}
+	content := func() int {
+		if bigPct > 0 && g.Bool(bigPct, "bigcontent") {
+			return g.Int(lsSmallContents, lsContents-1, "content-big")
+		}
+		return g.Int(0, lsSmallContents-1, "content")
+	}
+	if op == "twin" {
+		// a worktree X next to a bare X.git in the same directory: both are
+		// named X (same-root name collision)
+		var cands []lsGenRepo
+		for _, r := range m.repos {
+			if r.Path == "." {
+				continue
+			}
+			if r.Kind == "bare" && strings.HasSuffix(r.Path, ".git") && m.find(r.Root, strings.TrimSuffix(r.Path, ".git")) < 0 {
+				cands = append(cands, lsGenRepo{r.Root, strings.TrimSuffix(r.Path, ".git"), "nonbare"})
+			} else if (r.Kind == "nonbare" || r.Kind == "gitfile") && !strings.HasSuffix(r.Path, ".git") && m.find(r.Root, r.Path+".git") < 0 {
+				cands = append(cands, lsGenRepo{r.Root, r.Path + ".git", "bare"})
+			}
+		}
+		if len(cands) == 0 {
+			op = "add"
+		} else {
+			t := kit.Pick(g, cands, "twin")
+			m.repos = append(m.repos, t)
+			return lsMut{Op: "add", Root: t.Root, Path: t.Path, Kind: t.Kind, Content: content()}
+		}
+	}
 	switch op {
 	case "add":
 		var mu lsMut
 		wantDup := g.Bool(10, "wantdup") // name collisions are wanted, but not in most histories
 		for attempt := 0; attempt < 4; attempt++ {
-			mu = lsMut{Op: "add", Root: pickRoot("root"), Path: kit.Pick(g, lsPathPool, "path"), Content: g.Int(0, lsContents-1, "content")}
+			mu = lsMut{Op: "add", Root: pickRoot("root"), Path: kit.Pick(g, lsPathPool, "path"), Content: content()}
 			if lsGitSuffixed(mu.Root, mu.Path) {
 				mu.Kind = kit.Pick(g, []string{"bare", "bare", "bare", "bare", "bare", "nonbare", "fake"}, "kind")
 			} else {
@@ -363,6 +408,12 @@ func lsGen(rt *rapid.T) lsCase {
 	for _, a := range def {
 		defIdx = append(defIdx, a.Root)
 	}
+	bigPct := 0
+	if g.Bool(35, "smallshards") {
+		// repositories with big contents span 2-4 shards
+		c.ShardLimit = kit.Pick(g, []int{1500, 2200, 3000}, "shardlimit")
+		bigPct = 65
+	}
 	m := &lsGenModel{}
 	nsteps := g.Int(2, 6, "nsteps")
 	for s := 0; s < nsteps; s++ {
@@ -375,7 +426,7 @@ func lsGen(rt *rapid.T) lsCase {
 			nm = 2 + kit.Pick(g, []int{1, 2, 3, 4, 5}, "nmuts0")
 		}
 		for j := 0; j < nm; j++ {
-			st.Muts = append(st.Muts, lsGenMut(g, m, defIdx, s > 0))
+			st.Muts = append(st.Muts, lsGenMut(g, m, defIdx, s > 0, bigPct))
 		}
 		st.Cmd = lsGenCmd(g, m, def, s, nsteps)
 		st.Apply = g.Bool(72, "apply")
@@ -468,6 +519,16 @@ func (t *lsTemplates) getLocked(content, rev int) (wt, bare, head string, err er
 		}
 		if err := os.WriteFile(filepath.Join(wt, file), []byte(fmt.Sprintf("content %d needle\nrev 0\n", content)), 0o644); err != nil {
 			return fail(err)
+		}
+		if lsBig(content) {
+			if err := os.MkdirAll(filepath.Join(wt, "src"), 0o755); err != nil {
+				return fail(err)
+			}
+			for i := 0; i < lsBigFiles; i++ {
+				if err := os.WriteFile(filepath.Join(wt, "src", fmt.Sprintf("big%d.txt", i)), []byte(lsBigText(content, i)), 0o644); err != nil {
+					return fail(err)
+				}
+			}
 		}
 		if err := os.WriteFile(filepath.Join(wt, "README.md"), []byte("local repository\n"), 0o644); err != nil {
 			return fail(err)
@@ -1007,6 +1068,7 @@ type lsExpect struct {
 	Name   string
 	Source string
 	Head   string
+	Big    bool // content of several KB (spans several shards under a small -shard_limit)
 }
 
 type lsResolvedArg struct {
@@ -1043,6 +1105,7 @@ func (w *lsWorld) resolveArgs(args []lsArg) []lsResolvedArg {
 // reason why the sync has to be rejected.
 func (w *lsWorld) discover(args []lsResolvedArg) (exp []lsExpect, reject string, err error) {
 	byName := map[string]string{}
+	nameArg := map[string]string{}
 	bySource := map[string]string{}
 	seenArg := map[string]bool{}
 	for _, a := range args {
@@ -1102,13 +1165,17 @@ func (w *lsWorld) discover(args []lsResolvedArg) (exp []lsExpect, reject string,
 			if reject == "" {
 				if _, dup := byName[name]; dup {
 					reject = "duplicate-name"
+					if nameArg[name] == a.Abs {
+						reject = "duplicate-name-same-root" // worktree X next to bare X.git
+					}
 				} else if _, dup := bySource[source]; dup {
 					reject = "duplicate-source"
 				}
 			}
 			byName[name] = source
+			nameArg[name] = a.Abs
 			bySource[source] = name
-			exp = append(exp, lsExpect{Name: name, Source: source, Head: head})
+			exp = append(exp, lsExpect{Name: name, Source: source, Head: head, Big: lsBig(r.Content)})
 		}
 	}
 	sort.Slice(exp, func(i, j int) bool {
@@ -1137,7 +1204,11 @@ func (w *lsWorld) cmdArgs(c *lsCase, cmd lsCmd) (preview, force []string, ok boo
 			head = []string{"sync"}
 		}
 		// build options are constant across the history
-		head = append(head, "-index", w.index, "-disable_ctags", "-submodules=false", "-shard_limit", "1048576")
+		limit := 1 << 20
+		if c.ShardLimit >= 500 && c.ShardLimit <= 1<<20 {
+			limit = c.ShardLimit
+		}
+		head = append(head, "-index", w.index, "-disable_ctags", "-submodules=false", "-shard_limit", fmt.Sprint(limit))
 		var tail []string
 		for _, a := range ras {
 			tail = append(tail, a.Abs)
